@@ -4,6 +4,47 @@
 #define PROP_C11
 #include "refine_explore.hpp"
 
+
+// L3 scale block: the length band and the triangle-quality rule are relative to the size of the mesh.  Every history of the L2 alphabet up to `depth` is replayed on the seed scaled by s with the band
+// scaled by s, s a power of two (scaling by a power of two is exact in binary floating point: every length comparison and every quality ratio is the same number, so the pass must take the same decisions):
+//  (a) the connectivity and the positions divided by s reached at scale s are those reached at scale 1, with the same numbers of splits, merges and swaps; all per-operation oracles run at every scale;
+//  (b) independently of the code's own score: a mesh whose edges lie strictly inside the band and whose triangles all have q * area / perimeter^2 >= 0.25 (q = 36/sqrt 3, threshold of the rule 0.2)
+//      is left completely unchanged by a pass with edge swapping enabled.
+static std::string shape_key(const cell& c, double s) { std::string k; char b[120];
+    for (const node& n : c.node_lst_) { if (!n.is_used_) { k += "-;"; continue; } snprintf(b, sizeof b, "%a,%a,%a;", n.pos_.dx() / s, n.pos_.dy() / s, n.pos_.dz() / s); k += b; }
+    for (const face& f : c.face_lst_) { if (!f.is_used_) { k += "-;"; continue; } snprintf(b, sizeof b, "%u,%u,%u,%u;", f.n1_id_, f.n2_id_, f.n3_id_, (unsigned)f.type_id_); k += b; } return k; }
+static bool independently_conforming(const cell& c, double lmin, double lmax) {
+    for (const face& f : c.face_lst_) { if (!f.is_used_) continue; const vec3 &a = c.node_lst_[f.n1_id_].pos_, &b = c.node_lst_[f.n2_id_].pos_, &d = c.node_lst_[f.n3_id_].pos_;
+        const double l1 = (b - a).norm(), l2 = (d - b).norm(), l3 = (a - d).norm(); for (double l : {l1, l2, l3}) if (!(l > 1.001 * lmin && l < 0.999 * lmax)) return false;
+        const double area = 0.5 * (b - a).cross(d - a).norm(), per = l1 + l2 + l3; if (!(36. / std::sqrt(3.) * area / (per * per) >= 0.25)) return false; }
+    return true; }
+static void explore_scale(Result& R, const rx::Seed& seed, int depth, const std::string& only = "") {
+    using namespace rx; std::vector<Op> alphabet; for (unsigned d = 10; d <= 19; d++) alphabet.push_back({L2_DEFORM, d, 0});
+    alphabet.push_back({L2_REFINE_SWAP, 0, 0}); alphabet.push_back({L2_REFINE_NOSWAP, 0, 0}); alphabet.push_back({L2_REBASE, 0, 0}); alphabet.push_back({L2_REFRESH, 0, 0});
+    const double SC[] = {1.0, 0x1p-10, 0x1p-30, 0x1p-40, 0x1p+20}; const int NSC = 5;
+    std::vector<std::vector<Op>> hs = {{}}; for (int d = 0, from = 0; d < depth; d++) { const int to = (int)hs.size(); for (int i = from; i < to; i++) { bool ends_with_pass = !hs[i].empty() && (hs[i].back().kind == L2_REFINE_SWAP || hs[i].back().kind == L2_REFINE_NOSWAP); (void)ends_with_pass; for (const Op& op : alphabet) { auto h = hs[i]; h.push_back(op); hs.push_back(h); } } from = to; }
+    for (const auto& h : hs) { if (R.out_of_time(0.9)) { R.cap("deadline reached in the scale block on seed " + seed.name); break; }
+        if (h.empty() || (h.back().kind != L2_REFINE_SWAP && h.back().kind != L2_REFINE_NOSWAP)) continue;   // judged where a pass ends the history
+        if (!only.empty() && hist_text(h) != only) continue;
+        std::string ref_key; long ref_ops[3] = {0, 0, 0}; bool ref_dead = false;
+        for (int si = 0; si < NSC; si++) { const double s = SC[si]; sc::Mesh m = seed.mesh; for (auto& v : m.pos) v *= s; L_MIN = 0.5 * s; L_MAX = 1.5 * s;
+            // the history up to the last pass, then the judged pass
+            std::vector<Op> pre(h.begin(), h.end() - 1); BuiltL2 b = build_l2(m, pre); R["transitions"] += (long)h.size(); R["scale_block_passes"]++;
+            std::string err = b.err; bool dead = b.dead; bool conforming = false; std::string before;
+            if (err.empty() && !dead) { conforming = !b.stale && h.back().kind == L2_REFINE_SWAP && independently_conforming(*b.c, L_MIN, L_MAX); before = shape_key(*b.c, s);
+                L2Apply r = apply_l2(b.c, h.back(), b.stale); if (r.err.find("degenerate-flat") != std::string::npos) dead = true; else if (!r.err.empty()) err = r.err; else if (r.threw) dead = true; }
+            std::string key = (err.empty() && !dead) ? shape_key(*b.c, s) : ""; long ops[3] = {g_pass.splits, g_pass.merges, g_pass.swaps};
+            char buf[400]; std::string hist = hist_text(h);
+            if (err.empty() && !dead && conforming) { R["scale_block_conforming_meshes"]++; if (key != before) { snprintf(buf, sizeof buf, "pass-changed-a-mesh-already-inside-the-band: at scale %a a mesh with every edge strictly inside the band and every triangle of quality >= 0.25 (computed from the positions) underwent %ld splits %ld merges %ld swaps", s, ops[0], ops[1], ops[2]); err = buf; } }
+            if (err.empty() && si > 0 && (dead != ref_dead || (!dead && (key != ref_key || ops[0] != ref_ops[0] || ops[1] != ref_ops[1] || ops[2] != ref_ops[2])))) { snprintf(buf, sizeof buf, "pass-depends-on-the-absolute-scale: the same mesh and band scaled by %a: %ld splits %ld merges %ld swaps%s, at scale 1: %ld splits %ld merges %ld swaps%s%s", s, ops[0], ops[1], ops[2], dead ? " (ended by exception)" : "", ref_ops[0], ref_ops[1], ref_ops[2], ref_dead ? " (ended by exception)" : "", (!dead && !ref_dead && key != ref_key) ? "; resulting surfaces differ" : ""); err = buf; }
+            if (b.c) sc::release(b.c);
+            if (!err.empty() && err.rfind("INTERNAL", 0) != 0) { std::string clause = err.substr(0, err.find(':')); R.violation(clause + "|scale|" + seed.name, "seed " + seed.name + " history " + hist + ": " + err, "level=L3\nseed=" + seed.name + "\nhistory=" + hist + "\ndepth=" + std::to_string(depth) + "\n"); break; }
+            if (si == 0) { ref_key = key; ref_dead = dead; for (int k = 0; k < 3; k++) ref_ops[k] = ops[k]; R["states"]++; } }
+        L_MIN = 0.5; L_MAX = 1.5; }
+}
+
+static std::vector<rx::Seed> scale_seeds(bool th);
+static std::vector<rx::Seed> scale_seeds_fwd(bool th) { return scale_seeds(th); }
 static void explore(Result& R) {
     const bool th = R.args.thorough();
     auto sd = rx::seeds(th); long unit = 0;   // work units (seed x level) are dealt round-robin to the parallel shards
@@ -15,10 +56,15 @@ static void explore(Result& R) {
         if (!R.args.mine(unit++)) continue;
         long s0 = R["states"]; rx::explore_l2(R, sd[i], depth); R.tables["L2_states_per_seed"][sd[i].name + "@depth" + std::to_string(depth)] = R["states"] - s0; if (!R.internal_error.empty()) return; }
     R["L2_states"] = R["states"] - R["L1_states"]; R["L2_transitions"] = R["transitions"] - R["L1_transitions"];
+    { auto sd3 = scale_seeds_fwd(th);
+      for (size_t i = 0; i < sd3.size(); i++) { if (!R.args.mine(unit++)) continue; explore_scale(R, sd3[i], (th && sd3[i].mesh.nv() <= 8) ? 3 : 2); if (!R.internal_error.empty()) return; } }
     R["traces_validated_against_impl"] = R["transitions"]; R["evaluations"] = R["transitions"]; R["distinct_nontrivial"] = R["states"];
     R.strings["rule"] = "same state space as C01 (distinct canonical cell states reached by BFS over operation histories on the real code); every transition is compared with the pre-state snapshot: total momentum, bit-identical positions of surviving nodes, new node at the edge midpoint, face-type labels of split children, volume/area under splits; every refine_mesh pass: each split was of an edge longer than l_max and each merge of one shorter than l_min (lengths measured at operation entry through hook H5), a mesh inside the band with all triangle scores >= 0.2 comes back identical, the pass ends within 50*|E|+50 operations";
     R.assumptions = {"node momenta are position dependent, face labels = face index mod 3, dynamic model 0 build (momenta exist)", "tolerances: momentum 1e-12 relative to the sum of |momenta|, volume/area 1e-12 relative, positions exact",
                      "a pass that reports failure by exception ends the history (allowed by the statement)"};
 }
-static int replay(const Replay& rp, Result& R) { return rx::replay_any(rp, R); }
+static std::vector<rx::Seed> scale_seeds(bool th) { auto sd3 = rx::seeds(th); { sc::Mesh m = sc::icosphere(1); sd3.push_back({rx::normalised(m), "icosphere1"}); } { sc::Mesh m = sc::icosphere(1); for (size_t i = 0; i < m.nv(); i++) { m.pos[3*i] *= 1.15; m.pos[3*i+2] *= 0.9; } sd3.push_back({rx::normalised(m), "icosphere1_squeezed"}); } return sd3; }
+static int replay(const Replay& rp, Result& R) {
+    if (rp.get("level") == "L3") { for (auto& sd : scale_seeds(true)) if (sd.name == rp.get("seed")) { explore_scale(R, sd, atoi(rp.get("depth").c_str()), rp.get("history")); printf("C11 replay: scale block, seed %s, history %s: %s\n", sd.name.c_str(), rp.get("history").c_str(), R.violations.empty() ? "no violation" : R.violations[0].what.c_str()); return R.violations.empty() ? 0 : 1; } printf("unknown seed\n"); return 0; }
+    return rx::replay_any(rp, R); }
 int main(int argc, char** argv) { return run_main(argc, argv, "C11", explore, replay); }
